@@ -23,17 +23,17 @@ type CV struct {
 }
 
 type Env struct {
-	r      *FnRun
-	vars   map[string]CV
-	cur    *State
-	old    *State
-	parent *Env
+	r           *FnRun
+	vars        map[string]CV
+	cur         *State
+	old         *State
+	parent      *Env
 	phiOverride map[*ssa.Phi]Val
-	inLoop bool
-	blockPhis map[string]*ssa.Phi
+	inLoop      bool
+	blockPhis   map[string]*ssa.Phi
 	preferNames bool
-	pkg    *types.Package
-	ghostDepth int
+	pkg         *types.Package
+	ghostDepth  int
 }
 
 func (r *FnRun) newEnv(cur, old *State) *Env {
